@@ -194,10 +194,18 @@ Proof.
   unfold retain_non_zero, abs; cbn [inner len]. split; [split; cbn [inner len]|split].
   - unfold wf in *. apply Forall_forall. intros e He. apply filter_In in He.
     rewrite Forall_forall in Hwf. now apply Hwf.
-  - unfold alen. rewrite H1.
-    pose proof (filter_length_le' nonzero (abs_list (inner s))). unfold alen in Hlen. lia.
+  - unfold alen. rewrite H2. lia.
   - exact H1.
   - apply forallb_forall. intros e He. now apply filter_In in He.
+Qed.
+
+(* since the stored length is recomputed by `retain_non_zero`, it is exact afterwards whatever
+   it was before *)
+Lemma retain_exact s : Inv s -> Exact (retain_non_zero s).
+Proof.
+  intros [Hwf Hlen]. destruct (retain_abs_list _ Hwf) as [H1 H2].
+  destruct (retain_spec s (conj Hwf Hlen)) as ([Hwf' _] & _).
+  split; [exact Hwf'|]. unfold retain_non_zero, alen; cbn [inner len]. now rewrite H2.
 Qed.
 
 (* the safety contract of `transmute_into_vec` holds after `retain_non_zero`, and the
@@ -558,57 +566,74 @@ Proof.
   destruct (Z.to_nat (x - SIGN)) eqn:E; [lia|]. cbn in H. discriminate.
 Qed.
 
-Theorem run_refines : forall ops s,
-  Inv s -> legal (abs s) ops -> len s + n_pushes ops < SIGN ->
-  let '(s', ok) := run s ops in
-  ok = true /\ Inv s' /\ abs s' = spec_run (abs s) ops /\ len s' = len s + n_pushes ops.
+Lemma sort_exact s : Exact s -> forallb is_value (inner s) = true -> Exact (sort_desc s).
 Proof.
-  induction ops as [|o ops IH]; intros s HI Hlegal Hlen.
-  - cbn. repeat split; auto; try apply HI. lia.
+  intros HE Hv. pose proof (Exact_Inv _ HE) as HI. destruct HE as [Hwf Hlen].
+  destruct (sort_spec s HI Hv) as ([Hwf' _] & _ & Hv').
+  split; [exact Hwf'|]. unfold sort_desc, alen in *; cbn [inner len] in *.
+  rewrite (abs_list_values _ Hv'). rewrite (abs_list_values _ Hv) in Hlen.
+  rewrite <- Hlen. f_equal. apply Permutation_length. symmetry. apply sort_desc_perm.
+Qed.
+
+Theorem run_refines : forall ops s,
+  Exact s -> legal (abs s) ops -> len s + n_pushes ops < SIGN ->
+  let '(s', ok) := run s ops in
+  ok = true /\ Exact s' /\ abs s' = spec_run (abs s) ops /\ len s' <= len s + n_pushes ops.
+Proof.
+  induction ops as [|o ops IH]; intros s HE Hlegal Hlen.
+  - cbn. repeat split; auto; try apply HE. lia.
   - cbn [run]. destruct Hlegal as [Ho Hlegal].
-    pose proof (n_pushes_nonneg ops) as Hnn.
+    pose proof (n_pushes_nonneg ops) as Hnn. pose proof (Exact_Inv _ HE) as HI.
     destruct o as [b| | |]; cbn [step].
     + cbn [n_pushes] in Hlen.
       pose proof (push_spec s b HI ltac:(lia) Ho) as Hp.
-      destruct (push s b) as [s1 ok1]. destruct Hp as (Hok & HI1 & Habs1 & Hlen1 & _).
+      destruct (push s b) as [s1 ok1]. destruct Hp as (Hok & HI1 & Habs1 & Hlen1 & HE1).
       cbn [spec_step] in Hlegal. rewrite <- Habs1 in Hlegal.
-      specialize (IH s1 HI1 Hlegal ltac:(lia)).
-      destruct (run s1 ops) as [s2 ok2]. destruct IH as (Hok2 & HI2 & Habs2 & Hlen2).
-      subst ok1 ok2. split; [reflexivity|]. split; [exact HI2|]. split.
+      specialize (IH s1 (HE1 HE) Hlegal ltac:(lia)).
+      destruct (run s1 ops) as [s2 ok2]. destruct IH as (Hok2 & HE2 & Habs2 & Hlen2).
+      subst ok1 ok2. split; [reflexivity|]. split; [exact HE2|]. split.
       * cbn [spec_run fold_left spec_step]. now rewrite <- Habs1.
       * cbn [n_pushes]. lia.
-    + destruct (retain_spec s HI) as (HI1 & Habs1 & _).
+    + destruct (retain_spec s HI) as (HI1 & Habs1 & _). pose proof (retain_exact s HI) as HE1.
       cbn [spec_step] in Hlegal. change (fun w => negb (w =? 0)) with nonzero in Hlegal.
       rewrite <- Habs1 in Hlegal.
-      specialize (IH (retain_non_zero s) HI1 Hlegal Hlen).
+      assert (Hl1 : len (retain_non_zero s) <= len s).
+      { destruct HE as [_ Hex]. unfold retain_non_zero; cbn [len]. rewrite <- Hex. unfold alen.
+        destruct HI as [Hwf _]. destruct (retain_abs_list _ Hwf) as [H1 H2].
+        rewrite <- H2, H1. pose proof (filter_length_le' nonzero (abs_list (inner s))). lia. }
+      specialize (IH (retain_non_zero s) HE1 Hlegal ltac:(cbn [n_pushes] in Hlen; lia)).
       destruct (run (retain_non_zero s) ops) as [s2 ok2].
-      destruct IH as (Hok2 & HI2 & Habs2 & Hlen2). subst ok2.
-      split; [reflexivity|]. split; [exact HI2|]. split.
+      destruct IH as (Hok2 & HE2 & Habs2 & Hlen2). subst ok2.
+      split; [reflexivity|]. split; [exact HE2|]. split.
       * cbn [spec_run fold_left spec_step]. change (fun w => negb (w =? 0)) with nonzero.
         now rewrite <- Habs1.
-      * exact Hlen2.
+      * cbn [n_pushes]. lia.
     + assert (Hv : forallb is_value (inner s) = true)
         by (apply nonzero_values; [apply HI | exact Ho]).
-      destruct (sort_spec s HI Hv) as (HI1 & Habs1 & _).
+      destruct (sort_spec s HI Hv) as (HI1 & Habs1 & _). pose proof (sort_exact s HE Hv) as HE1.
       cbn [spec_step] in Hlegal. rewrite <- Habs1 in Hlegal.
-      specialize (IH (sort_desc s) HI1 Hlegal Hlen).
+      specialize (IH (sort_desc s) HE1 Hlegal Hlen).
       destruct (run (sort_desc s) ops) as [s2 ok2].
-      destruct IH as (Hok2 & HI2 & Habs2 & Hlen2). subst ok2.
-      split; [reflexivity|]. split; [exact HI2|]. split.
+      destruct IH as (Hok2 & HE2 & Habs2 & Hlen2). subst ok2.
+      split; [reflexivity|]. split; [exact HE2|]. split.
       * cbn [spec_run fold_left spec_step]. now rewrite <- Habs1.
       * exact Hlen2.
-    + destruct (retain_spec s HI) as (HI1 & Habs1 & Hv1).
-      destruct (sort_spec _ HI1 Hv1) as (HI2 & Habs2 & _).
+    + destruct (retain_spec s HI) as (HI1 & Habs1 & Hv1). pose proof (retain_exact s HI) as HE1.
+      destruct (sort_spec _ HI1 Hv1) as (HI2 & Habs2 & _). pose proof (sort_exact _ HE1 Hv1) as HE2.
       cbn [spec_step] in Hlegal. change (fun w => negb (w =? 0)) with nonzero in Hlegal.
       unfold retain_non_zero_and_sort.
       rewrite <- Habs1, <- Habs2 in Hlegal.
-      specialize (IH _ HI2 Hlegal Hlen).
+      assert (Hl1 : len (sort_desc (retain_non_zero s)) <= len s).
+      { destruct HE as [_ Hex]. unfold sort_desc, retain_non_zero; cbn [len]. rewrite <- Hex. unfold alen.
+        destruct HI as [Hwf _]. destruct (retain_abs_list _ Hwf) as [H1 H2].
+        rewrite <- H2, H1. pose proof (filter_length_le' nonzero (abs_list (inner s))). lia. }
+      specialize (IH _ HE2 Hlegal ltac:(cbn [n_pushes] in Hlen; lia)).
       destruct (run (sort_desc (retain_non_zero s)) ops) as [s3 ok3].
-      destruct IH as (Hok3 & HI3 & Habs3 & Hlen3). subst ok3.
-      split; [reflexivity|]. split; [exact HI3|]. split.
+      destruct IH as (Hok3 & HE3 & Habs3 & Hlen3). subst ok3.
+      split; [reflexivity|]. split; [exact HE3|]. split.
       * cbn [spec_run fold_left spec_step]. change (fun w => negb (w =? 0)) with nonzero.
         now rewrite <- Habs1, <- Habs2.
-      * exact Hlen3.
+      * cbn [n_pushes]. lia.
 Qed.
 
 (* the observations of a reachable state are those of the plain list *)
@@ -618,15 +643,17 @@ Theorem observe_refines ops :
   let l := spec_run [] ops in
   ok = true /\ iter_all s = l /\ into_vec s = Some l
   /\ transmute_into_vec (retain_non_zero s) = Some (filter nonzero l)
-  /\ len s = n_pushes ops.
+  /\ len s = Z.of_nat (length l).
 Proof.
   intros Hl Hn.
-  pose proof (run_refines ops sv_empty (Exact_Inv _ Exact_empty) Hl ltac:(cbn; lia)) as H.
-  destruct (run sv_empty ops) as [s ok]. destruct H as (Hok & HI & Habs & Hlen).
-  change (abs sv_empty) with (@nil Z) in Habs. cbn [len sv_empty] in Hlen.
+  pose proof (run_refines ops sv_empty Exact_empty Hl ltac:(cbn; lia)) as H.
+  destruct (run sv_empty ops) as [s ok]. destruct H as (Hok & HE & Habs & Hlen).
+  change (abs sv_empty) with (@nil Z) in Habs.
+  pose proof (Exact_Inv _ HE) as HI.
   split; [exact Hok|]. rewrite <- Habs.
   split; [now apply iter_all_spec|]. split; [now apply into_vec_spec|].
-  split; [now apply transmute_after_retain | lia].
+  split; [now apply transmute_after_retain|].
+  destruct HE as [_ Hex]. rewrite <- Hex. reflexivity.
 Qed.
 
 (* ---- raw_strains equivalence (C10) ------------------------------------------------ *)
@@ -677,13 +704,13 @@ Proof.
     split; [|now apply IH]. unfold push_ok in *. zb. lia. }
   assert (Hnp : forall l, n_pushes (map OPush l) = Z.of_nat (length l)).
   { induction l as [|x l IH]; cbn [map n_pushes length]; [reflexivity|]. rewrite IH. lia. }
-  pose proof (run_refines (map OPush pushes) sv_empty (Exact_Inv _ Exact_empty)
+  pose proof (run_refines (map OPush pushes) sv_empty Exact_empty
                 (Hleg _ _ Hok) ltac:(cbn [len sv_empty]; rewrite Hnp; lia)) as H.
   cbn zeta. destruct (run sv_empty (map OPush pushes)) as [s ok].
-  destruct H as (Hk & HI & Habs & Hl).
+  destruct H as (Hk & HE & Habs & Hl). pose proof (Exact_Inv _ HE) as HI.
   change (abs sv_empty) with (@nil Z) in Habs. rewrite Hspec in Habs.
-  rewrite Hraw. cbn [app] in *. cbn [len sv_empty] in Hl. rewrite Hnp in Hl.
-  split; [exact Hk|]. split; [rewrite map_length; lia|].
+  rewrite Hraw. cbn [app] in *.
+  split; [exact Hk|]. split; [destruct HE as [_ Hex]; rewrite <- Hex; unfold alen; fold (abs s); now rewrite Habs|].
   split; [now rewrite iter_all_spec|]. split; [now rewrite into_vec_spec, Habs|].
   destruct (retain_spec s HI) as (HI1 & Habs1 & Hv1).
   unfold retain_non_zero_and_sort, transmute_into_vec.
@@ -719,3 +746,29 @@ Example legal_example :
   n_pushes [OPush 4607182418800017408; OPush 0; OPush SIGN; OPush 4611686018427387904;
             ORetainSort] < SIGN.
 Proof. vm_compute. repeat split; congruence. Qed.
+
+(* since the fix of the stale length, `len()` after the zeros are removed is the same number in
+   both variants (before it, the compact list kept reporting the number of pushes) *)
+Theorem raw_len_equiv (pushes : list Z) :
+  forallb push_ok pushes = true -> Z.of_nat (length pushes) < SIGN ->
+  let s := fst (run sv_empty (map OPush pushes)) in
+  let r := fold_left raw_push pushes [] in
+  len (retain_non_zero_and_sort s) = Z.of_nat (length (raw_sort_desc (raw_retain_non_zero r))).
+Proof.
+  intros Hok Hlen. pose proof (raw_equiv pushes Hok Hlen) as H. cbv zeta in H.
+  assert (Hleg : forall l acc, forallb push_ok l = true -> legal acc (map OPush l)).
+  { induction l as [|x l IH]; intros acc Hx; cbn; [exact I|]. cbn in Hx. zb.
+    split; [|now apply IH]. unfold push_ok in *. zb. lia. }
+  assert (Hnp : forall l, n_pushes (map OPush l) = Z.of_nat (length l)).
+  { induction l as [|x l IH]; cbn [map n_pushes length]; [reflexivity|]. rewrite IH. lia. }
+  pose proof (run_refines (map OPush pushes) sv_empty Exact_empty
+                (Hleg _ _ Hok) ltac:(cbn [len sv_empty]; rewrite Hnp; lia)) as HR.
+  destruct (run sv_empty (map OPush pushes)) as [s ok]. cbn [fst].
+  destruct H as (_ & _ & _ & _ & Ht). destruct HR as (_ & HE & _ & _).
+  pose proof (Exact_Inv _ HE) as HI.
+  destruct (retain_spec s HI) as (HI1 & _ & Hv1). pose proof (retain_exact s HI) as HE1.
+  pose proof (sort_exact _ HE1 Hv1) as [_ Hex2].
+  destruct (sort_spec _ HI1 Hv1) as (_ & _ & Hv2).
+  unfold retain_non_zero_and_sort in *. unfold transmute_into_vec in Ht. rewrite Hv2 in Ht.
+  injection Ht as Ht. rewrite <- Ht, <- Hex2. unfold alen. now rewrite (abs_list_values _ Hv2).
+Qed.
